@@ -157,6 +157,22 @@ Theorem C16_mixed_unit_refuted :
 Proof. exact mixed_unit_dropped. Qed.
 Print Assumptions C16_mixed_unit_refuted.
 
+(* the unit filter exactly: a segment that starts with a reply from unit 0xFF or 0 delivers every
+   reply in it (wildcard on the EXPECTED unit); one that starts with unit 1 delivers only unit 1 *)
+Theorem C16_wildcard_first_delivers_all :
+  let σ := arun code VDict [Made; Execute; Execute; Execute; Execute;
+                            Segment [(255, 1, 11); (1, 2, 12); (0, 3, 13); (2, 4, 14)]] (init_state code) in
+  a_pending σ = [] /\ a_fired σ = [(1, OCb 1 11); (2, OCb 2 12); (3, OCb 3 13); (4, OCb 4 14)].
+Proof. exact wildcard_first_delivers_all. Qed.
+Print Assumptions C16_wildcard_first_delivers_all.
+
+Theorem C16_plain_unit_first_filters :
+  let σ := arun code VDict [Made; Execute; Execute; Execute; Execute;
+                            Segment [(1, 2, 12); (255, 1, 11); (0, 3, 13); (2, 4, 14)]] (init_state code) in
+  a_pending σ = [(1, 1); (3, 3); (4, 4)] /\ a_fired σ = [(2, OCb 2 12)].
+Proof. exact plain_unit_first_filters. Qed.
+Print Assumptions C16_plain_unit_first_filters.
+
 (* FIFO (serial) variant: no transaction id on the wire, so an unsolicited frame cannot be dropped;
    it is handed to the oldest pending request *)
 Theorem C16_fifo_unsolicited_misdelivered :
